@@ -515,6 +515,15 @@ impl JobServer {
             state.destroy_tokens(cheats);
             write_tokens(self.params.cheat_fds.1, state.cheats as usize)
                 .map_err(RedoError::opaque_error)?;
+        } else if state.my_tokens == 0 && self.params.top_level == 0 {
+            // Whoever started us assumes that every subprocess dies holding
+            // exactly one token, and re-creates that token when we exit.  We
+            // hold none: we released ours (e.g. while waiting for a lock, or
+            // right before an error exit) and never got a real one back.
+            // Tell the parent not to re-create it, the same way a cheater
+            // does, or the pool would grow by one.
+            debug_jobserver!("0,0 -> force_return_tokens: exiting without a token");
+            write_tokens(self.params.cheat_fds.1, 1).map_err(RedoError::opaque_error)?;
         }
         Ok(())
     }
